@@ -34,7 +34,7 @@ TEXT = {
          'OS behaviour enters as abstract scenario classes; their concrete realisation is part of the tie.'),
  'C10': ('model front end = PEG semantics (evalF, proved sound) of the grammar peg.peg itself — regenerated into Lean from /repo/peg.peg on every run — composed with a Lean transcription of the tree builder; theorems re-checked by the kernel against the regenerated grammar: complete escape table (474 spellings), representative evaluations of every construct, precedence chain, and universal builder lemmas (list flattening, no panic on balanced call sequences, hex/octal decoding for all digit strings, model soundness w.r.t. Eval); tie T-front: every spelling variant of generated abstract grammars REAL vs denote (spec) vs model, plus a malformed stream (reject or agree with the model, never panic).',
          'the universal round trip frontEnd(render a sp) = denote a is tested, not proved; strings.ToLower/ToUpper on non-ASCII runes outside the model; documentation deviations are recorded as known findings F-C10-*.'),
- 'C15': ('Lean transcription of checkRecursion/countRules/link diagnostics and an independent specification (Reachable, Undefined, LeftRec via first references and must-consume); for all grammars: duplicate diagnosed iff names repeat, "defined but not used" iff unreachable, "used but not defined" iff undefined (PegText excepted — known finding), left recursion reported iff some rule is left-recursive (LeftRec ⊆ warned ⊆ LeftRecW per rule), -strict fails iff any diagnostic; tie T-diag: ordered warning lines, strict failure and duplicate error of the real generator vs model, warned name sets vs an independent evaluation of the spec, on families + random + exhaustive small grammars.',
+ 'C15': ('Lean transcription of checkRecursion/countRules/link diagnostics and an independent specification (Reachable, Undefined, LeftRec via first references and must-consume); for all grammars: duplicate diagnosed iff names repeat, "defined but not used" iff unreachable, "used but not defined" iff undefined (also the name PegText), left recursion reported iff some rule is left-recursive (LeftRec ⊆ warned ⊆ LeftRecW per rule), -strict fails iff any diagnostic; tie T-diag: ordered warning lines, strict failure and duplicate error of the real generator vs model, warned name sets vs an independent evaluation of the spec, on families + random + exhaustive small grammars.',
          'must-consume is the code\'s conservative syntactic notion (hence "possible" left recursion); rule names colliding with generated names (Action<k>, PegText) are outside the property.'),
  'C11': ('error token = first furthest non-empty attempted token (tie vs spec fold over attempted tokens); translatePositions/Error() proved equal to the 1-based line/column specification for all buffers and offsets (C11Err), no panic; tied by T-err on the current template text.', 'as C01'),
 }
